@@ -129,3 +129,122 @@ Proof. intro A. unfold wsgi_query, asgi_query. rewrite A. reflexivity. Qed.
 Theorem query_views_agree_refuted_non_ascii :
   exists q, wsgi_query q <> asgi_query q None.
 Proof. exists [113; 61; 255]. vm_compute. discriminate. Qed.
+
+(* ---- access_route / remote_addr: the peer is appended unless it is already the LAST hop, on
+   both stacks, for every header / peer combination (a non-empty peer address) *)
+Theorem access_route_views_agree f fwd xff xreal peer :
+  peer <> Some [] ->
+  wsgi_access_route f fwd xff xreal peer = asgi_access_route f fwd xff xreal peer.
+Proof.
+  intro NE. unfold wsgi_access_route, asgi_access_route, wsgi_remote_addr.
+  change (asgi_header_route f fwd xff xreal) with (wsgi_header_route f fwd xff xreal).
+  destruct (wsgi_header_route f fwd xff xreal) as [[|x r]| |k]; try reflexivity.
+  destruct peer as [[|c s]|]; [contradiction NE; reflexivity | reflexivity | reflexivity].
+Qed.
+
+Lemma last_app_single {A} (l : list A) x d : last (l ++ [x]) d = x.
+Proof.
+  induction l as [|y tl IH]; [reflexivity|]. cbn [app].
+  destruct (tl ++ [x]) eqn:E; [destruct tl; discriminate|]. exact IH.
+Qed.
+
+Lemma rev_head_last {A} (l : list A) d x tl : rev l = x :: tl -> last l d = x.
+Proof.
+  intro H. assert (E : l = rev tl ++ [x]) by (rewrite <- (rev_involutive l), H; reflexivity).
+  rewrite E. apply last_app_single.
+Qed.
+
+(* the last element of the route is the connected peer: remote_addr is the peer on both stacks,
+   whatever the headers claim *)
+Theorem access_route_ends_with_peer f fwd xff xreal peer r :
+  peer <> Some [] ->
+  asgi_access_route f fwd xff xreal peer = Ok r -> last r [] = wsgi_remote_addr peer.
+Proof.
+  intros NE. unfold asgi_access_route, wsgi_remote_addr. cbv zeta.
+  destruct (asgi_header_route f fwd xff xreal) as [[|x t]| |k]; try discriminate.
+  - destruct peer as [[|c s]|]; [contradiction NE; reflexivity | |];
+      cbn [nonempty]; intro H; injection H as <-; reflexivity.
+  - match goal with |- context [str_eqb ?a ?b] => destruct (str_eqb a b) eqn:E end;
+      cbn [negb]; intro H; injection H as <-.
+    + apply str_eqb_eq. exact E.
+    + match goal with |- last (?a :: ?b ++ [?c]) _ = _ => change (a :: b ++ [c]) with ((a :: b) ++ [c]) end.
+      apply last_app_single.
+Qed.
+
+Theorem remote_addr_views_agree f fwd xff xreal peer :
+  peer <> Some [] ->
+  match asgi_remote_addr f fwd xff xreal peer with
+  | Ok a => a = wsgi_remote_addr peer
+  | Http400 => asgi_access_route f fwd xff xreal peer = Http400
+  | Crash k => asgi_access_route f fwd xff xreal peer = Crash k
+  end.
+Proof.
+  intro NE. unfold asgi_remote_addr.
+  destruct (asgi_access_route f fwd xff xreal peer) as [r| |k] eqn:E; try reflexivity.
+  pose proof (access_route_ends_with_peer f fwd xff xreal peer r NE E) as L.
+  destruct (rev r) as [|x tl] eqn:R.
+  - (* an empty route is impossible for a non-empty peer *)
+    exfalso. assert (r = []) by (rewrite <- (rev_involutive r), R; reflexivity). subst r.
+    unfold asgi_access_route in E.
+    destruct (asgi_header_route f fwd xff xreal) as [[|x t]| |k]; try discriminate.
+    + destruct peer as [[|c s]|]; [contradiction NE; reflexivity | discriminate | discriminate].
+    + destruct (negb (str_eqb (last (x :: t) []) _)); discriminate.
+  - rewrite <- L. symmetry. eapply rev_head_last. exact R.
+Qed.
+
+(* a mutant that appends the peer only when it occurs NOWHERE in the chain differs: witness *)
+Theorem peer_inside_chain_is_still_appended :
+  wsgi_access_route true None (Some (lit "10.0.0.1, 10.0.0.2")) None (Some (lit "10.0.0.1"))
+  = Ok [lit "10.0.0.1"; lit "10.0.0.2"; lit "10.0.0.1"].
+Proof. vm_compute. reflexivity. Qed.
+
+(* ---- response body: the inlined ASGI copy selects the same source as Response.render_body,
+   for every combination of text / data / media being set (including empty values) *)
+Theorem render_body_views_agree text data media :
+  wsgi_render_body text data media = asgi_inline_render_body text data media.
+Proof. destruct text, data, media; reflexivity. Qed.
+
+(* an explicitly empty text (or data) still takes precedence *)
+Theorem empty_text_takes_precedence data media :
+  asgi_inline_render_body (Some []) data media = Some [] /\
+  asgi_inline_render_body None (Some []) media = Some [].
+Proof. split; reflexivity. Qed.
+
+(* ---- request target: the test client's inline-query split = the server's split *)
+Lemma split_join_first c s :
+  match split_chr c s with
+  | p :: rest => char_in c s = true -> partition_chr c s = (p, true, join_chr c rest)
+  | [] => False
+  end.
+Proof.
+  induction s as [|x tl IH]; cbn [split_chr partition_chr].
+  - intro H. discriminate.
+  - destruct (x =? c)%N eqn:E.
+    + intros _. rewrite join_split_chr. reflexivity.
+    + pose proof (split_chr_nonempty c tl) as NE.
+      destruct (split_chr c tl) as [|p rest] eqn:S; [contradiction|].
+      intro H. unfold char_in in H. cbn [existsb] in H. rewrite (N.eqb_sym c x), E in H. cbn [orb] in H.
+      rewrite (IH H). destruct rest; reflexivity.
+Qed.
+
+Theorem sim_split_is_target_split path :
+  char_in qmark path = true -> sim_split path None = Some (target_split path).
+Proof.
+  intro H. unfold sim_split, target_split. rewrite H.
+  pose proof (split_join_first qmark path) as S.
+  destruct (split_chr qmark path) as [|p rest]; [contradiction|].
+  rewrite (S H). reflexivity.
+Qed.
+
+Theorem sim_split_separate path q :
+  char_in qmark path = false ->
+  sim_split path (Some q) = Some (target_split (path ++ qmark :: q)).
+Proof.
+  intro H. unfold sim_split, target_split. rewrite H.
+  assert (P : partition_chr qmark (path ++ qmark :: q) = (path, true, q)).
+  { induction path as [|x tl IH]; cbn [app partition_chr].
+    - rewrite N.eqb_refl. reflexivity.
+    - unfold char_in in H. cbn [existsb] in H. apply orb_false_iff in H as [H1 H2].
+      rewrite (N.eqb_sym x qmark), H1. rewrite (IH H2). reflexivity. }
+  rewrite P. reflexivity.
+Qed.
